@@ -762,3 +762,24 @@ add("P5", "break", CORE, "GroupBy.apply", "arrays = [broadcast_to_rows(arr) for 
 add("P6", "break", CORE, "GroupBy.apply", "by_code = np.full(self.ngroups + 1, null, dtype=arr.dtype)", "by_code = np.full(self.ngroups, null, dtype=arr.dtype)", name="P6 apply: per-code table without the null slot", expect_func="*")
 add("P5", "break", CORE, "GroupBy.apply", "observed_codes = np.arange(self.ngroups)[self._labels_argsort][observed]", "observed_codes = np.arange(self.ngroups)[observed]", name="P5 apply: results scattered without the label permutation", expect_func="*")
 add("P6", "keep", CORE, "GroupBy.apply", "by_code = np.full(self.ngroups + 1, null, dtype=arr.dtype)", "by_code = np.full(1 + self.ngroups, null, dtype=arr.dtype)", name="P6 apply: 1 + ngroups")
+
+# --------------------------------------------------------------------------------------------- round-3 rules
+add("S6", "break", CORE, "GroupBy.head", "ilocs = numba_funcs._find_first_or_last_n(group_key=self.group_ikey, ngroups=self.ngroups, n=n, forward=True)",
+    "if not hasattr(self, '_row_cache'):\n            self._row_cache = {}\n        if n not in self._row_cache:\n            self._row_cache[n] = numba_funcs._find_first_or_last_n(group_key=self.group_ikey, ngroups=self.ngroups, n=n, forward=True)\n        ilocs = self._row_cache[n]", name="S6 head memoised on the grouping")
+add("S6", "keep", CORE, "GroupBy.head", "ilocs = numba_funcs._find_first_or_last_n(group_key=self.group_ikey, ngroups=self.ngroups, n=n, forward=True)",
+    "found = {}\n        found[n] = numba_funcs._find_first_or_last_n(group_key=self.group_ikey, ngroups=self.ngroups, n=n, forward=True)\n        ilocs = found[n]", name="S6 local dict")
+add("S7", "break", CORE, "GroupBy.__init__", "self._group_ikey, self._result_index = factorize_1d(group_key)", "self._group_ikey, self._result_index = factorize_1d(group_key, sort=self._sort)\n                self._index_is_sorted = self._sort", name="S7 flag set from the request to sort")
+add("S7", "break", CORE, "GroupBy._factorize_group_key_in_chunks", "self._result_index = self._result_index.sort_values()", "self._result_index = self._result_index[:1].append(self._result_index[1:].sort_values())", name="S7 only part of the labels sorted before the flag is set")
+add("S8", "break", CORE, "GroupBy._resolve_mask_argument_into_chunks", "elif self.key_is_chunked:", "elif len(mask_chunks) > 1:", name="S8 chunkedness from the cached lengths")
+add("W5", "break", NB, "_rolling_sum_or_mean_1d", "is_null(old_val)", "np.isnan(old_val)", name="W5 evicted value tested with np.isnan")
+add("Q1", "break", UTIL, "is_categorical", "a.dtype == pl.Categorical", "a.dtype is pl.Categorical", name="Q1 identity comparison of a polars dtype")
+add("Q2", "break", API, "BaseGroupByRolling.__init__", "min_periods if min_periods is not None else window", "min_periods or window", name="Q2 min_periods=0 replaced by the window")
+
+add("A13", "break", API, "BaseGroupBy.cumsum", "self._grouper.cumsum(self._values_to_group)", "self._grouper.cumsum(self._values_to_group, skip_na=False)", name="A13 facade fixes skip_na=False")
+add("A13", "break", API, "BaseGroupBy.__iter__", "self._obj.iloc[", "self._values_to_group.iloc[", name="A13 iteration over the value columns")
+add("O3", "break", CORE, "GroupBy.median", "func=np.median", "func=lambda a: np.median(a, overwrite_input=True)", name="O3 median may scramble its input")
+add("K4c", "break", FACT, "factorize_2d", "nb.typed.Dict.empty(nb.types.int64, nb.types.int64)", "nb.typed.Dict.empty(nb.types.int32, nb.types.int32)", name="K4c 32-bit typed dictionary")
+add("D9c", "break", CORE, "GroupBy._resolve_mask_argument_into_chunks", "self._unify_group_key_chunks(keep_chunked=False)\n                group_key = self.group_ikey\n                mask_chunks = [mask]",
+    "chunk_of = np.searchsorted(self._chunk_offsets, mask, side='right')\n                mask_chunks = [mask[chunk_of == i] for i in range(len(self._group_key_lengths))]", name="D9c positions dealt to the key chunks")
+add("D6b", "break", CORE, "GroupBy._apply_gb_func_across_chunked_group_keys", "combined = numba_funcs._build_target_for_groupby(results_one_value[0].dtype, 'sum' if func_name in ('size', 'count') else func_name, len(self._result_index) + 1)", "combined = np.zeros(len(self._result_index) + 1, dtype=results_one_value[0].dtype)", name="D6b merge target starts at zero")
+add("D9", "break", NB, "_group_func_wrap", "chunked_args = _chunk_groupby_args(**kwargs, n_chunks=n_threads)", "if fancy_indexing:\n            kwargs['mask'] = np.sort(mask)\n        chunked_args = _chunk_groupby_args(**kwargs, n_chunks=n_threads)", name="D9 positions sorted before they are dealt to the threads")
